@@ -74,10 +74,12 @@ class HTML:
                             fg = v  # Alias for 'fg'.
 
                     # Check for spaces in attributes. This would result in
-                    # invalid style strings otherwise.
-                    if " " in fg:
+                    # invalid style strings otherwise. (Any white space: style
+                    # strings are split with `str.split()`, so "\r", a
+                    # no-break space etc. separate style words as well.)
+                    if any(c.isspace() for c in fg):
                         raise ValueError('"fg" attribute contains a space.')
-                    if " " in bg:
+                    if any(c.isspace() for c in bg):
                         raise ValueError('"bg" attribute contains a space.')
 
                     if add_to_name_stack:
